@@ -51,7 +51,9 @@ RULE = ("all partitions/orders/duplications of an instance's record set (PTR, SR
         "expire; stop_browse inside the follow-up window, browse again, PTR-only again (the follow-up question must come: "
         "seeded change C04-m6), also with a subtype that shares the instance and stays browsed (cached while the type was not browsed: additional section, or beside a browsed subtype's PTR); timer-exact and late schedules; non-trivial = at least one event or follow-up question")
 TRUSTED = bc.TRUSTED_COMMON
-PARTIAL = ("Status of viol_C04's failure kinds over all histories of the model: F04_order and F04_complete are excluded by "
+PARTIAL = ("Case mapping of NON-ASCII letters (the daemon lower-cases host names with Unicode rules, the Coq model folds "
+           "ASCII only) is covered by the model-free family `na-` only: SRV target and address owner differing in the case of "
+           "a non-ASCII letter; the expectation is computed in the Python projection, no theorem speaks about it. Status of viol_C04's failure kinds over all histories of the model: F04_order and F04_complete are excluded by "
            "theorems about viol_C04 (outside known_browse_expiring / complete_class). F04_followup and F04_many are NOT "
            "excluded as statements about viol_C04: proved is the clause in the property's own terms on the model's trace "
            "(C04_followups_as_specified_partial, C04_queued_due_is_tried, C04_tried_asks_expected, the step theorems, the "
@@ -95,6 +97,7 @@ def known_class(line, impl_result, mon_result):
 def generate(rng, tier):
     k = 1 if tier == "quick" else 12
     return bc.mk_cases(rng, [
+        ("na-", 40 * k, lambda r, i: bc.gen_nonascii_host(r, i, False)),
         ("order", 1200 * k, bc.gen_order),
         ("follow", 800 * k, bc.gen_followup),
         ("life", 1000 * k, bc.gen_lifecycle),
